@@ -356,6 +356,38 @@ pub fn gen_cases(args: &Args) -> Vec<Case> {
     cases
 }
 
+/// Variable lists that name a spin the sampler does not have, or the same spin twice (right-sized, non-negative
+/// matrices): the constructor must return (Err or Ok) without panicking, and whatever it accepts must be
+/// sampleable.  Not part of the Coq correspondence (the interaction model has no notion of the sampler's size).
+fn malformed_variable_lists(seed: u64) -> (usize, Vec<serde_json::Value>) {
+    let mut fails = vec![];
+    let mut n = 0usize;
+    let lists: Vec<Vec<usize>> = vec![vec![NVARS], vec![NVARS + 2], vec![0, NVARS], vec![NVARS, 1], vec![0, 0], vec![2, 2], vec![1, 3, 1], vec![0, 1, NVARS + 1],
+        vec![4, 4, 4], vec![0, 1, 2, 0]];
+    for (li, vars) in lists.iter().enumerate() {
+        for kind in 0..4usize {
+            let k = vars.len();
+            let len = if kind < 2 { 1usize << (2 * k) } else { 1usize << k };
+            let mat: Vec<f64> = (0..len).map(|i| 0.25 * (1 + (i * 7 + li) % 5) as f64).collect();
+            let c = Case { kind, mat, vars: vars.clone() };
+            n += 1;
+            let o = observe(&c, seed.wrapping_add((li * 4 + kind) as u64));
+            if o.panicked_ctor {
+                fails.push(json!({"what": "constructor panicked on a variable list naming a missing or repeated spin", "kind": kind, "vars": vars, "nvars": NVARS}));
+                continue;
+            }
+            if o.ok {
+                let (panicked, hung) = sample_in_company(&c, seed.wrapping_add(77 + li as u64));
+                if panicked || hung {
+                    fails.push(json!({"what": format!("interaction on variables {:?} of a {}-spin sampler was accepted but sampling it {}", vars, NVARS, if hung {"does not return"} else {"panics"}),
+                        "kind": kind, "vars": vars, "mat": c.mat}));
+                }
+            }
+        }
+    }
+    (n, fails)
+}
+
 pub fn run(args: &Args) -> serde_json::Value {
     let cases = gen_cases(args);
     let mut coq = vec![];
@@ -398,8 +430,14 @@ pub fn run(args: &Args) -> serde_json::Value {
         }
         coq.push(to_coq(c, &o));
     }
+    let (n_bad_lists, bad_fails) = malformed_variable_lists(args.seed);
+    for f in bad_fails {
+        if oracle_failures.len() < 60 {
+            oracle_failures.push(f);
+        }
+    }
     let files = crate::write_shards(&args.out, "C16", "C16", &coq, 400);
-    json!({"files": files, "evaluations": cases.len(), "distinct_nontrivial": distinct.len(),
+    json!({"files": files, "evaluations": cases.len(), "distinct_nontrivial": distinct.len(), "malformed_variable_list_probes": n_bad_lists,
         "accepted": n_ok, "rejected": n_err, "reported_symmetric": n_sym,
         "oracle_failures": oracle_failures, "impl_ctor_panics": n_panic, "impl_sampling_panics": n_sample_panic, "samples": samples,
         "rule": "size grid 0..70 x 0..4 vars x 4 ctors (exhaustive), all 0/1 full 1-var and diagonal 1..3-var matrices (exhaustive), sampled 0/1 2-var full / 4-var diagonal, random dyadic matrices incl. negative / constant / constant-diagonal / (nearly) symmetric; distinct = distinct (ctor, matrix, nvars) with non-empty matrix"})
